@@ -263,7 +263,7 @@ def evaluate(pool, lane, job, use_ref_for_session=False, nclosure=2):
             if f.get('alias'):
                 findings.append({'class': 'alias', 'cid': cid, 'k': k, 'op': f['op'], 'args': f['alias'],
                                  'message': '%s returned an array sharing memory with argument(s) %s' % (f['op'], f['alias'])})
-            if f['op'].startswith('C19.') and f['nf'][0] == 'exc':
+            if f['op'].startswith(('C19.', 'ORACLE.')) and f['nf'][0] == 'exc':
                 # the oracle ops call dadi with well-formed inputs (>= k+2 bootstraps, positive models): an exception
                 # inside them is dadi failing, and it would be invisible to the pristine comparison when the cause lies
                 # within the same client's own history
